@@ -103,7 +103,8 @@ class Collection:
                     how = rnd.choice(("thumb", "inline", "gallery", "cell", "frame"))
                     name = im[5:]
                     if how == "thumb":
-                        parts.append("\n\n[[File:%s|thumb|%s]]\n\n%s\n" % (name, word(), word()))
+                        al = rnd.choice(("", "", "|left", "|right", "|center", "|none", "|upright", "|120px"))
+                        parts.append("\n\n[[File:%s|thumb%s|%s]]\n\n%s\n" % (name, al, word(), word()))
                     elif how == "frame":
                         parts.append("\n\n[[File:%s|frame|%s]]\n\n%s\n" % (name, word(), word()))
                     elif how == "inline":
@@ -169,8 +170,10 @@ def build_archive(coll, workdir):
     for i, a in enumerate(coll.articles):
         if coll.chapters and i % 2 == 0:
             mb.items.append(metabook.Chapter(title="Chapter %d" % (i // 2 + 1), items=[]))
-        mb.append_article(a["title"])
         rev += 1
+        # metabooks name the revision they were built from: as a number, as the string the wiki sent, or not at all
+        pin = (None, rev, str(rev))[(i + len(a["text"])) % 3]
+        mb.append_article(a["title"], revision=pin)
         pages[str(rev)] = {"title": a["title"], "ns": 0, "revisions": [{"revid": rev, "*": a["text"]}]}
     for name, body in coll.templates.items():
         rev += 1
